@@ -6,6 +6,7 @@ CONSTANTS
   DeleteByName = FALSE
   ClaimIgnoresCancel = FALSE
   PrefixCancellers = {}
+  BlockingSend = TRUE
   DropOnClaim = FALSE
   MaxRuns = 3
 INVARIANTS TypeOK NoOverlap NoPanic NameReusable NameSlotUnique SuccessorReachable LockFreeAtEnd
